@@ -577,4 +577,5 @@ def standin_golden_prefixes(tier, seed):
     return dict(name='golden_prefixes', bound=bound, cases=len(cases), status='ok')
 
 
+# @@CLOSURES@@
 STANDINS = [standin_prefix_values, standin_prefix_values_build, standin_scope_eval, standin_scope_build, standin_reserved_positions, standin_golden_prefixes]
